@@ -49,6 +49,7 @@ type verifObj struct {
 	nTags  int
 	nMeta  int  // user metadata entries
 	cc     bool // Cache-Control present
+	ver    bool // written while the bucket's versioning was enabled
 }
 
 type verifStore struct {
@@ -57,6 +58,7 @@ type verifStore struct {
 	applied int  // mutations applied
 	failAt  int  // the failAt-th mutation fails once (-1: never)
 	failed  bool // the injected failure has happened
+	ver     bool // bucket versioning enabled
 }
 
 var verifKeyNames = [2]string{"a", "b"}
@@ -82,7 +84,18 @@ func verifInnerStore(s *verifStore) *verifDouble {
 		if !s.bucket {
 			return nil, storage.ErrNoSuchBucket
 		}
+		if s.ver {
+			st := storage.BucketVersioningStatusEnabled
+			return &storage.BucketVersioningConfiguration{Status: &st}, nil
+		}
 		return &storage.BucketVersioningConfiguration{}, nil
+	}
+	d.fnPutBucketVersioningConfiguration = func(ctx contextT, b storage.BucketName, c *storage.BucketVersioningConfiguration) error {
+		if !s.bucket {
+			return storage.ErrNoSuchBucket
+		}
+		s.ver = c != nil && c.Status != nil && *c.Status == storage.BucketVersioningStatusEnabled
+		return nil
 	}
 	d.fnCreateBucket = func(ctx contextT, b storage.BucketName) error {
 		if s.fault() {
@@ -120,7 +133,7 @@ func verifInnerStore(s *verifStore) *verifDouble {
 		if err != nil {
 			return nil, err
 		}
-		obj := verifObj{exists: true, body: body}
+		obj := verifObj{exists: true, body: body, ver: s.ver}
 		if o != nil {
 			if o.IfNoneMatchStar && s.keys[verifKeyIdx(k)].exists {
 				return nil, storage.ErrPreconditionFailed
@@ -283,17 +296,30 @@ func VerifC21History() {
 	}
 	steps := verifParam("steps", 3)
 	for s := 0; s < steps; s++ {
-		switch verifPick("op", 0, 9) {
+		switch verifPick("op", 0, 10) {
+		case 10: // versioning is enabled: every write accepted before must replay under the old configuration
+			verifAssume(model.bucket && !model.ver)
+			verifAssume(inner.failAt < 0 || inner.failed)
+			st := storage.BucketVersioningStatusEnabled
+			var err error
+			verifRead(func() {
+				err = os.PutBucketVersioningConfiguration(verifBg, bucket, &storage.BucketVersioningConfiguration{Status: &st})
+			})
+			verifAssert(err == nil, "PutBucketVersioningConfiguration failed")
+			verifCover("versioning-enabled")
+			model.ver = true
 		case 0: // create bucket
 			verifAssume(!model.bucket)
 			verifAssert(os.CreateBucket(verifBg, bucket) == nil, "CreateBucket not accepted")
 			model.bucket = true
 		case 1: // put
 			verifAssume(model.bucket)
+			// under enabled versioning a put is written through: the injected failure is for replays
+			verifAssume(!model.ver || inner.failAt < 0 || inner.failed)
 			k := verifPick("key", 0, 1)
 			body := []byte{verifByte("body")}
 			var opts *storage.PutObjectOptions
-			want := verifObj{exists: true, body: body}
+			want := verifObj{exists: true, body: body, ver: model.ver}
 			switch verifPick("put-options", 0, 3) {
 			case 1:
 				opts, want.nTags = &storage.PutObjectOptions{Tags: map[string]string{"t": "1"}}, 1
@@ -321,7 +347,7 @@ func VerifC21History() {
 				verifAssert(err == storage.ErrPreconditionFailed, "If-None-Match:* put over an accepted (possibly still queued) object was not refused")
 			} else {
 				verifAssert(err == nil, "If-None-Match:* put on an absent key was refused")
-				model.keys[k] = verifObj{exists: true, body: body}
+				model.keys[k] = verifObj{exists: true, body: body, ver: model.ver}
 			}
 		case 2: // delete object
 			verifAssume(model.bucket)
@@ -385,6 +411,7 @@ func VerifC21History() {
 		verifAssert(inner.keys[k].exists == model.keys[k].exists, "after draining, a key's existence differs from the accepted history")
 		if model.keys[k].exists {
 			verifAssert(bytesEq(inner.keys[k].body, model.keys[k].body), "after draining, a key's content differs from the accepted history")
+			verifAssert(inner.keys[k].ver == model.keys[k].ver, "after draining, a write was applied under another versioning configuration than it was accepted under")
 			verifAssert(inner.keys[k].nTags == model.keys[k].nTags, "after draining, a key's tags differ from the accepted history")
 			verifAssert(inner.keys[k].nMeta == model.keys[k].nMeta && inner.keys[k].cc == model.keys[k].cc, "after draining, a key's metadata differs from the accepted history")
 		}
